@@ -127,13 +127,15 @@ class World:
             out += [(k + r, md5hex(c)) for r, c in self.dirobjs[k].items()]
         return out
 
-    def index(self, cache_suffix=""):
+    def index(self, cache_suffix="", only=None):
         from dvc_data.hashfile.hash_info import HashInfo
         from dvc_data.hashfile.meta import Meta
         from dvc_data.index.index import DataIndex, DataIndexEntry, ObjectStorage
 
         idx = DataIndex()
         for k, oid, isdir in self.entries():
+            if only is not None and k not in only:
+                continue
             idx[k] = DataIndexEntry(key=k, meta=Meta(isdir=isdir), hash_info=HashInfo("md5", oid))
         for e in self.case["mapping"]:
             p = tuple(e["prefix"])
@@ -274,16 +276,79 @@ def check(ctx, case):
         ctx.sample({"mapping": case["mapping"], "entries": [["/".join(k), o] for k, o, _ in ents][:6], "first_round": r1, "retry": r2})
 
 
+def gen_history(rng):
+    """several indexes (sub-sets of one world's entries) pushed one after the other through the same remotes, which keep a
+    persistent existence index and are collected by somebody else in between"""
+    case = gen_case(rng)
+    case["remote_index"] = True
+    case["fail_fraction"] = 0.0
+    steps = []
+    for _ in range(rng.randrange(2, 4)):
+        steps.append({"take": rng.randrange(1 << 16), "collect": rng.choice([None, "all", "some", "some"]), "keep": rng.randrange(1 << 16)})
+    case["history"] = steps
+    return case
+
+
+def check_history(ctx, case):
+    from dvc_data.hashfile.gc import gc
+    from dvc_data.index.collect import collect
+    from dvc_data.index.push import push
+
+    w = World(ctx, case)
+    w.fill_caches()
+    ents = sorted(w.entries())
+    if not ents:
+        return
+    pairs = {(w.resolve(tuple(e["prefix"]), "remote"), w.resolve(tuple(e["prefix"]), "cache")) for e in case["mapping"]}
+    conflict = any(r1_ == r2_ and c1_ != c2_ and r1_ for (r1_, c1_) in pairs for (r2_, c2_) in pairs)
+    sig = "one-remote-designated-by-prefixes-with-different-caches" if conflict else None
+    ctx.case(case, nontrivial=len(ents) >= 2)
+    ctx.count("history: steps=%d" % len(case["history"]))
+    for n, step in enumerate(case["history"]):
+        if n and step["collect"]:
+            # somebody else collects the remotes: everything, or everything but a random (closed) used set
+            for r in ("R1", "R2"):
+                used = []
+                if step["collect"] == "some":
+                    used = [stores.hi(oid) for i, (k, oid, isdir) in enumerate(ents) if (step["keep"] >> (i % 16)) & 1]
+                safe_call(lambda r=r, used=used: gc(w.odb(r), used, shallow=False), expected=(FileNotFoundError,))
+            ctx.count("history: collected %s" % step["collect"])
+        only = {k for i, (k, oid, isdir) in enumerate(ents) if (step["take"] >> (i % 16)) & 1} or {ents[0][0]}
+        want = {}
+        for k, oid, isdir in ents:
+            if k in only:
+                for kk, o in w.reach_keys(k, oid, isdir):
+                    r, c = w.resolve(kk, "remote"), w.resolve(kk, "cache")
+                    if r and c:
+                        want.setdefault(r, set()).add(o)
+        res = []
+        for _ in range(2):  # the push and a retry
+            idx = w.index(only=only)
+            k1, r1 = safe_call(lambda idx=idx: push(collect([idx], "remote", push=True)))
+            res.append(r1 if k1 == "ok" else "raised " + str(r1))
+        ctx.oracle(not any(isinstance(x, str) for x in res), case, {"why": "push raised", "step": n, "results": [str(x) for x in res]})
+        for r, objs in want.items():
+            have = set(stores.listing_of(w.odb(r).path))
+            missing = sorted(o for o in objs if o not in have)
+            ctx.oracle(not missing, case, {"why": "after a push (and a retry) of step %d an object reachable from the pushed index is not in the designated "
+                                                  "remote, whose existence index went through earlier pushes and an external collection" % n,
+                                           "remote": r, "missing": missing, "results": [str(x) for x in res], "pushed_keys": sorted("/".join(k) for k in only)}, signature=sig)
+            bad = stores.closed_violations(w.odb(r).path)
+            ctx.oracle(not bad or bool(sig), case, {"why": "a remote is not closed after the push of step %d" % n, "remote": r, "dangling": bad[:3]})
+
+
 def run(ctx):
     ctx.rule = (
         "indexes with files and directory objects (nested listings, contents shared between trees and prefixes) under 1-4 storage "
         "prefixes (root, sub-trees, and sub-directories strictly inside directory objects) whose cache/remote roles are set independently and whose remotes may be shared by sibling "
         "prefixes; a first push with a random subset of failing uploads, a clean retry, fetch into empty caches, checkout from them; "
-        "with/without a remote index, both store classes. non-trivial = >=2 prefixes and something to push"
+        "with/without a remote index, both store classes; histories of 2-3 pushes of different sub-indexes through the same remotes with persistent existence indexes, the remotes being garbage-collected by somebody else in between. non-trivial = >=2 prefixes and something to push"
     )
     ctx.assumptions = ["collection is per mapping prefix: a shorter prefix's storage may also receive objects of a longer prefix (allowed by the statement)"]
     for _ in range(ctx.n(90, 1000)):
         check(ctx, gen_case(ctx.rng))
+    for _ in range(ctx.n(50, 600)):
+        check_history(ctx, gen_history(ctx.rng))
 
 
 def search(ctx):
@@ -293,4 +358,4 @@ def search(ctx):
 
 def replay(ctx, payload):
     c = payload.get("case") or payload.get("diverging_case")
-    check(ctx, c)
+    (check_history if c.get("history") else check)(ctx, c)
